@@ -139,6 +139,13 @@ def gen_fields(rng, n, need_display_idx, robust=False, allow_flaky=False):
 ROBUST = [False]
 
 
+def pick_expr(v, k):
+    # a field used as a width or precision stays small (format! rejects widths beyond u16 at run time)
+    if v.get("cast_usize") and v["tys"][k] == "usize":
+        return "(<u8 as Pick>::pick(p[%d]) as usize)" % k
+    return "Pick::pick(p[%d])" % k
+
+
 def gen_literal(rng, refs):
     """refs: list of (placeholder name, type class) that must each appear at least once."""
     order = list(refs)
@@ -255,6 +262,36 @@ def generate(rng, seed, size):
                     v["attrs"] = attrs
                     v["fixed"] = canon if canon is not None else (casing.convert(ident, style) if style else ident)
             variants.append(v)
+        # width and precision taken from OTHER fields of the variant (`{0:1$}`, `{x:w$.p$}`): format! binds them by
+        # position or by name like any other argument (own PRNG stream: every other choice stays as it was)
+        if not robust and ei % 5 == 2 and not (11 <= ei < 16):
+            import random as _r
+            wr = _r.Random("c17-widthargs-%d-%d" % (seed, ei))
+            for _ in range(wr.randint(1, 2)):
+                vt = wr.choice(["i64", "String", "f64", "char", "bool", "&'static str", "u8"])
+                shape = wr.choice(["t_w", "t_w", "t_wp", "t_p", "n_w", "n_wp", "n_wp_shuffled"])
+                if shape in ("t_wp", "t_p", "n_wp", "n_wp_shuffled"):
+                    vt = wr.choice(["String", "f64", "f64", "&'static str"])
+                al = wr.choice(["", ">", "^", "<", "\u00e9<", "*^"])
+                seg0, seg1 = wr.choice(["", "w ", "{{", "[", "}}"]), wr.choice(["", " e", "}}", "]", "{{1$}}"])
+                nv = dict(ident="W%d" % len(variants), kind="tuple" if shape.startswith("t_") else "named", disabled=False, attrs=[],
+                          fixed=None, literal=None, tys=[], fnames=[], ref=None, cast_usize=True)
+                if shape == "t_w":
+                    nv["tys"], body = [vt, "usize"], "{0:%s1$}" % al
+                elif shape == "t_wp":
+                    nv["tys"], body = [vt, "usize", "usize"], wr.choice(["{0:%s1$.2$}" % al, "{0:%s2$.1$}" % al])
+                elif shape == "t_p":
+                    nv["tys"], body = [vt, "usize"], "{0:.1$}"
+                elif shape == "n_w":
+                    nv["tys"], nv["fnames"], body = [vt, "usize"], ["x", "w"], "{x:%sw$}" % al
+                elif shape == "n_wp":
+                    nv["tys"], nv["fnames"], body = [vt, "usize", "usize"], ["x", "w", "p"], "{x:%sw$.p$}" % al
+                else:
+                    nv["tys"], nv["fnames"], body = ["usize", vt, "usize"], ["p", "value", "width"], "{value:%swidth$.p$}" % al
+                nv["used"] = list(range(len(nv["tys"])))
+                nv["literal"] = seg0 + body + seg1
+                nv["attrs"] = ["#[strum(to_string = %s)]" % rs(nv["literal"])]
+                variants.insert(wr.randrange(0, len(variants) + 1), nv)
         # prefixes chosen with the variants in view: a brace in the prefix (only legal when no name is a format
         # literal), or a prefix that equals the beginning of one of the names it is prepended to
         has_interp = any(v["literal"] is not None for v in variants)
@@ -300,6 +337,9 @@ def generate(rng, seed, size):
                 out.append(l + "\n")
         out.append("#[derive(strum::Display, Debug)]\n")
         if not robust:
+            for l in noise.extra_derives("c17-%d-%s" % (seed, ename), ["strum::AsRefStr", "strum::IntoStaticStr", "strum::EnumCount",
+                                                                       "strum::VariantNames", "strum::EnumMessage"]):
+                out.append(l + "\n")
             for l in noise.enum_strum_noise(rng):
                 out.append(l + "\n")
         if prefix is not None:
@@ -349,9 +389,9 @@ def generate(rng, seed, size):
             if v["kind"] == "unit":
                 val = "%s::%s" % (ename, v["ident"])
             elif v["kind"] == "tuple":
-                val = "%s::%s(%s)" % (ename, v["ident"], ", ".join("Pick::pick(p[%d])" % k for k in range(len(v["tys"]))))
+                val = "%s::%s(%s)" % (ename, v["ident"], ", ".join(pick_expr(v, k) for k in range(len(v["tys"]))))
             else:
-                val = "%s::%s { %s }" % (ename, v["ident"], ", ".join("%s: Pick::pick(p[%d])" % (n, k) for k, n in enumerate(v["fnames"])))
+                val = "%s::%s { %s }" % (ename, v["ident"], ", ".join("%s: %s" % (n, pick_expr(v, k)) for k, n in enumerate(v["fnames"])))
             out.append("        %d => %s,\n" % (i, val))
         out.append("        _ => unreachable!(),\n    })\n}\n")
         out.append("static VARIANTS_%s: &[VariantInfo] = &[\n" % ename.upper())
